@@ -149,9 +149,10 @@ func main() {
 	var inLimits func(g *c05lib.GenMsg) bool
 	if json {
 		sub = jsonSubProto.NewJSONSubProtoFunc()
-		pf.MethodClasses = []int{c05lib.ClsText, c05lib.ClsText, c05lib.ClsPrint, c05lib.ClsJSON, c05lib.ClsASCII, c05lib.ClsUTF8P}
+		// the service method is an arbitrary byte string (written through escapeBody like the body)
+		pf.MethodClasses = []int{c05lib.ClsText, c05lib.ClsPrint, c05lib.ClsJSON, c05lib.ClsASCII, c05lib.ClsUTF8, c05lib.ClsAll, c05lib.ClsAll, c05lib.ClsSep, c05lib.ClsHigh}
 		pf.MethodLens = []int{0, 1, 7, 20, 255, 256, 1000}
-		inLimits = func(g *c05lib.GenMsg) bool { return c05lib.JSONSafeMethod(g.Method) }
+		inLimits = func(g *c05lib.GenMsg) bool { return true }
 	} else {
 		sub = pbSubProto.NewPbSubProtoFunc()
 		pf.MethodClasses = []int{c05lib.ClsText, c05lib.ClsText, c05lib.ClsASCII, c05lib.ClsUTF8, c05lib.ClsAll, c05lib.ClsHigh}
@@ -161,7 +162,7 @@ func main() {
 			return !g.HasSt || (g.Code == 0 && len(g.Msg) == 0 && !g.HasC)
 		}
 	}
-	st.Rule = name + ": (a) sub-protocol Pack into a buffer and Unpack of that one message through 3 chunkings (all byte values in meta/status/body; lengths 0,1,127,128,255,256,65535,65536; seq extremes; every codec id; pipes over xor/rev/lenp/md5/gzip; size limit sometimes at / below the message size); (b) 1-6 messages through the real wsProto over a client and a server websocket connection (real handshake), the frame stream re-chunked 3 ways, compared with the direct decoding; (c) hostile messages of the written shape (JSON members with hostile values and pipe arrays / protobuf payloads with unknown, repeated, wrongly typed fields, bad varints, truncation)"
+	st.Rule = name + ": (a) sub-protocol Pack into a buffer and Unpack of that one message through 3 chunkings (all byte values in service method/meta/status/body; lengths 0,1,127,128,255,256,65535,65536; seq extremes; every codec id; pipes over xor/rev/lenp/md5/gzip; size limit sometimes at / below the message size); (b) 1-6 messages through the real wsProto over a client and a server websocket connection (real handshake), the frame stream re-chunked 3 ways, compared with the direct decoding; (c) hostile messages of the written shape (JSON members with hostile values and pipe arrays / protobuf payloads with unknown, repeated, wrongly typed fields, bad varints, truncation)"
 	w := NewCaseWriter(cfg)
 	distinct := DistinctSet{}
 	kind := VS(*modeFlag)
